@@ -20,7 +20,7 @@ func init() {
 			"(second hex argument, first is the token) and, on the same shard, the value written to the new holder; every success return is cut by the write of constant 0 to the old counter and by the call that removes the create role from the old holder's list; " +
 			"the new holder gets the role. The routine may read the counter more than once and reset it in several branches: a read whose value goes to the new holder or into the message must not be able to follow the reset, the resets (removals) together lie on every successful path at every call level, and with the new holder in the same shard counter write and role addition lie on every successful path. R3 (next owner): the counter is set to the number decoded from Arguments[1] and the create role is added. R5: the counter key is written only below ESDTNFTCreate and ESDTNFTCreateRoleTransfer (no other function can lower the record of the highest nonce issued). Does NOT decide: uniqueness over histories (late or duplicated delivery), wrap-around at 2^64.",
 		Trusted: []string{"A-deps", "single-creator discipline of the protocol"},
-		Rules:   []func(*Ctx){c07r1, c07r2, c07r4, c07r5, c07r6},
+		Rules:   []func(*Ctx){c07r1, c07r2, c07r4, c07r5, c07r6, c07r7},
 	})
 }
 
@@ -1168,4 +1168,12 @@ func c07r6(c *Ctx) {
 	c.shareRule(c15r2, "C15-R2", "C07-R6", "the nonce counter is read with the codec it is written with", func(o Oblig) bool {
 		return strings.Contains(o.Construct, "nonce key") || o.Kind == "anchor"
 	})
+}
+
+
+// c07r7: "the old holder loses both": a role handed over twice must not be stored twice (the remover takes one occurrence
+// out; a second one left behind keeps creating from a zeroed counter) — shared with C15-R5: the create role is appended only
+// after a search of the whole list found none.
+func c07r7(c *Ctx) {
+	c.shareRule(c15r5, "C15-R5", "C07-R7", "the create role is added only after a search of the whole role list found none (no duplicate survives a later removal)", nil)
 }
